@@ -161,6 +161,8 @@ OTHER_MUTATIONS = [
      'IF i % 2 = 1 THEN JStr(KeyStr(ks[i])) ELSE Ser(ks[i])]', 'IF i % 2 = 1 THEN JStr(Atom(ks[i])) ELSE Ser(ks[i])]', 'I_RoundTrip', None),
     ('delete removes the key directory but keeps its files', 'StorageSeq.tla', 'StorageSeq_gen.cfg',
      'IF x[1] = k THEN Absent ELSE s.data[x]]]', 's.data[x]]]', 'DataOnlyInDirs', None),
+    ('the cycle search only looks for tasks that depend on themselves directly', 'CycleCheck.tla', 'CycleCheck_gen.cfg',
+     'IF d = task \\/ d \\in parents THEN', 'IF d = task THEN', 'I_Verdict', None),
     ('the key directory is not required to be a child of the storage directory', 'LocalPaths.tla', 'LocalPaths_quick.cfg',
      "KeyOk(kts) == ~KeyErr(kts) /\\ Parent(KeyPath(kts)) = S", "KeyOk(kts) == ~KeyErr(kts)", 'I_NothingOutside', None),
     ('the filename is not resolved before the parent check (symlinks followed afterwards)', 'LocalPaths.tla', 'LocalPaths_quick.cfg',
